@@ -182,8 +182,13 @@ func c18Case(w *fw.W, idx int, r *fw.Rand) {
 	cfg := Cfg{Seed: r.U64() | 1}
 	vm := cfg.NewVM()
 	vm.Attrs.Store("力量", ds.NewIntVal(50))
+	var kept []*ds.VMValue
+	var keptCanon []string
 	vm.Config.CallbackSt = func(_type string, name string, val *ds.VMValue, extra *ds.VMValue, op string, detail string) {
 		got = append(got, stExp{typ: _type, name: name, val: Canon(val), extra: Canon(extra), op: op, detail: detail})
+		// "val and extra are clones and may be stored" (RollConfig): keep them and look again after the run
+		kept = append(kept, val, extra)
+		keptCanon = append(keptCanon, Canon(val), Canon(extra))
 	}
 	var err error
 	pv, st := fw.Guard(func() { err = vm.Run(src) })
@@ -195,6 +200,12 @@ func c18Case(w *fw.W, idx int, r *fw.Rand) {
 	kind := "assign"
 	if modify {
 		kind = "modify"
+	}
+	for i, v := range kept {
+		if c := Canon(v); c != keptCanon[i] {
+			w.Violate(idx, "st", "st|kept-value-changed|"+kind, desc, fmt.Sprintf("the value handed to callback #%d was %s during the call and is %s after the run: it was not a copy", i/2, keptCanon[i], c), nil)
+			break
+		}
 	}
 	switch {
 	case err != nil:
